@@ -86,7 +86,7 @@ def literal_array(shape):
 def plain_shape(shape):
     """Whole-collection iteration: no skip/take/rev/filter adapters."""
     k = shape[0]
-    if k in ("adapter", "take", "rev"):
+    if k in ("adapter", "take", "rev", "revall"):
         return False
     if k == "zip":
         return plain_shape(shape[1]) and plain_shape(shape[2])
